@@ -61,6 +61,12 @@ CLAIMED.update({
             "gorilla/websocket framing trusted (in-memory WebsocketConnection); transparency compared up to numeric representation, id renaming and order within one step.", "DESIGN.md 4/C15"),
 })
 
+CLAIMED.update({
+    "C09": ("model-based property testing of the handshake: generated authentication configurations x scripted adversarial handshakes (replay, wrong key, other user, malformed, silence, first-message violations, smuggled details) vs. an acceptance model with independent HMAC/Ed25519 verification, observed through a meta-API observer",
+            "Exploration: soundness (WELCOME implies the model allows it and the response verifies against this handshake's challenge) and completeness (valid credentials are welcomed) per handshake, identity shown to others equals the authenticator's, nothing of an aborted peer is routed or listed. Sampling.",
+            "Cryptographic strength of HMAC-SHA256/Ed25519 assumed; in-process peers without RequireLocalAuth are trusted by documented policy.", "DESIGN.md 4/C09"),
+})
+
 NOT_YET = {}
 
 def main():
